@@ -71,7 +71,7 @@ def run(chk):
         lx = c09.Lexer(px)
         c09.rule_paren(px, fm, pr)
         c09.rule_adj(px, fm, pr, lx)
-        c09.rule_lit(px, fm)
+        c09.rule_literals(px, fm)
     except (c09.Missing, I.Unknown) as e:
         chk.ob("C04.anchor/c09-extraction", False, "anchor-missing: %s" % e, "rssl_formatter / rssl_parser")
 
